@@ -22,7 +22,7 @@ class Infeasible(Exception):
     """the shard's fixed selector prefix does not fit this grammar position (nothing to explore)"""
 
 
-def generate(sym, slots: int, body: int, allow_watch: bool, allow_uod: bool, first=None, max_blocks: int = 3, pre=()):
+def generate(sym, slots: int, body: int, allow_watch: bool, allow_uod: bool, first=None, max_blocks: int = 3, pre=(), alarm=False):
     """-> pcode.  `first`: kind of the first top-level item (shard), or None; `pre`: values of the first selector draws (shard)."""
     cnt = {"mark": 0, "block": 0, "watch": 0, "uod": 0, "draw": 0}
     lines = []
@@ -33,7 +33,10 @@ def generate(sym, slots: int, body: int, allow_watch: bool, allow_uod: bool, fir
 
     def watch(ind, in_block):
         cnt["watch"] += 1
-        lines.append("    " * ind + "Watch: In1 > 0")
+        kw = "Watch"
+        if alarm:
+            kw = ("Watch", "Alarm")[sym.index(f"wkind{cnt['watch']}", 2)]
+        lines.append("    " * ind + f"{kw}: In1 > 0")
         opts = ["mark", "block"] + (["mark_end"] if in_block else [])
         w = opts[sym.index(f"wbody{cnt['watch']}", len(opts))]
         if w == "mark":
